@@ -37,6 +37,11 @@ CHECKS = {
     "C08": ("spec/UintBytes.tla", "All 9 encoders, 6 round trips, copy-into-buffer forms (buffer compared byte for byte) and "
             "try_from_be/le_slice, from_*_slice, from_*_bytes on arbitrary byte strings of length 0..BYTES+8 are validated by "
             "TLC against the positional definition; never-panic is part of the contract."),
+    "C09": ("spec/UintText.tla", "to_base_le/be, from_base_le/be (errors as sets of allowed outcomes where the property leaves "
+            "precedence open), from_str / from_str_radix over radices 0..=65 and both alphabets, and Display/Debug/Binary/Octal/"
+            "LowerHex/UpperHex over a grid of 6 traits x 8 flag sets x 7 fill/alignment forms x widths are validated by TLC against "
+            "positional notation and a TLA+ model of Formatter::pad_integral; the primitive u128's own output is validated by the "
+            "same action (reference binding)."),
     "C10": ("spec/UintMath.tla CheckModular/CheckPowMod/CheckInvMod", "reduce_mod, add_mod, mul_mod, pow_mod, inv_mod validated by "
             "TLC in witness form (x = k*m + r, r < m; a*x = 1 + k*m; common-divisor witness for None) with quotient witnesses "
             "from Python integers; all (a,b,m) at BITS<=4."),
@@ -50,6 +55,10 @@ CHECKS = {
     "C13": ("spec/UintMath.tla CheckPow/CheckLog/CheckLog210/CheckRoot", "pow family validated against a^e mod 2^BITS and the exact "
             "overflow predicate; log/log2/log10/checked forms against b^k <= v < b^(k+1) and 'no panic at any width'; root against "
             "r^d <= v < (r+1)^d, with hang detection; exhaustive at BITS<=6 (root: BITS<=8, degrees 0..BITS+2)."),
+    "C18": ("spec/UintFloat.tla", "try_from/from/wrapping_from/saturating_from for f64 and f32 bit patterns validated by TLC against "
+            "exact floor(f + 1/2) from the decoded IEEE-754 fields, NaN / negative / too-large classification; f64::from / f32::from "
+            "on ascending runs of values validated against 'one of the two representable neighbours, exact if representable, "
+            "+inf only beyond the rounding range, monotone'."),
     "C14": ("spec/Kernels.tla CheckKDiv*", "algorithms::div on every combination of slice lengths 1..12 and zero padding, the "
             "specialised kernels inside their preconditions, reciprocal/reciprocal_2 on every table row, validated by TLC "
             "against the Euclidean relation / the reciprocal's defining inequalities (multiplication and comparison only)."),
@@ -60,10 +69,8 @@ CHECKS = {
 
 PENDING = {
     "C04": "in progress in this revision: canonical-value closure over histories, comparisons and ill-formed type probes are being built",
-    "C09": "in progress in this revision: radix conversion / parsing / formatting actions are being built",
     "C16": "in progress in this revision: codec encoders are being built",
     "C17": "in progress in this revision: decoder totality checks are being built",
-    "C18": "in progress in this revision: float conversion actions are being built",
     "C19": "in progress in this revision: uint! literal probe programs are being built",
     "C20": "in progress in this revision: facade agreement events are being built",
 }
